@@ -148,9 +148,30 @@ def make_case(rng, path):
     return {"cluster": spec, "ops": ops, "meta": {"path": path, "compression": comp}}
 
 
+def make_unreachable_case(rng):
+    """a call that fails because one of its two brokers refuses the connection, followed by calls that succeed: the confirmations of
+    the later calls are the answers to THOSE calls (offsets continue from what the failed call did append)"""
+    spec = {"brokers": brokers(2), "topics": {b"alpha": [1, 2, 1], b"beta": [2, 1]}, "logs": {}}
+    hs = [host_of(spec, n) for n in sorted(spec["brokers"])]
+    ser = Serial()
+    acks = rng.choice([1, -1])
+    mk = lambda tps: T("produce_messages", [acks, 1, 0, [pm(t, p, None, ser.value(rng)) for (t, p) in tps]])
+    both = [(b"alpha", 0), (b"alpha", 1), (b"beta", 0), (b"beta", 1), (b"alpha", 0)]
+    rng.shuffle(both)
+    ops = [T("client_new", [hs[:1]]), T("load_metadata_all"), T("set_retry_max_attempts", [3])]
+    if rng.random() < 0.5:
+        ops.append(mk([(b"alpha", 0), (b"beta", 1)]))          # broker 1 only (its connection exists since the metadata load)
+    ops.append({"op": mk(both), "unreachable": [hs[1]], "expect_fail": True})
+    ops.append({"op": mk([(b"alpha", 0), (b"alpha", 2)]), "unreachable": []})
+    ops.append(mk(both))
+    ops.append(mk([(b"beta", 1)]))
+    return {"cluster": spec, "ops": ops, "meta": {"path": "client", "compression": 0, "family": "unreachable_broker"}}
+
+
 def gen(rng, tier):
     n = 450 if tier == "quick" else 15000
-    return [make_case(rng, "client") for _ in range(n)] + [make_case(rng, "producer") for _ in range(n)]
+    return ([make_case(rng, "client") for _ in range(n)] + [make_case(rng, "producer") for _ in range(n)] +
+            [make_unreachable_case(rng) for _ in range(16 if tier == "quick" else 300)])
 
 
 # ---- oracle ------------------------------------------------------------------------------------------------------------
@@ -285,6 +306,14 @@ def oracle(case, recs, cl):
         for h, n in per_host.items():
             if n != 1:
                 bad("%d requests to broker %s in one call" % (n, h.decode()))
+        item = case["ops"][i]
+        if isinstance(item, dict) and item.get("expect_fail"):
+            # one of the brokers involved cannot be reached during this call: it fails; what did reach a broker was appended there
+            for tp, vs in sets.items():
+                end[tp] = end.get(tp, 0) + len(vs)
+            if res.name == "ok":
+                bad("a leader of the batch refused the connection but the call returned %s" % dumps(res)[:80])
+            continue
         # every record exactly once, in the message set of its partition, at that partition's leader
         where = {}
         values = set()
